@@ -254,6 +254,11 @@ func runHandshake(id int, sc *hsScript, configured bool) hsLine {
 		cli.VendorSpecificApplicationID = []*diam.AVP{diam.NewAVP(avp.VendorSpecificApplicationID, avp.Mbit, 0, &diam.GroupedAVP{AVP: []*diam.AVP{
 			diam.NewAVP(avp.VendorID, avp.Mbit, 0, datatype.Unsigned32(10415)),
 			diam.NewAVP(avp.AuthApplicationID, avp.Mbit, 0, datatype.Unsigned32(4243))}})}
+	case "both":
+		// the S6a application also as a plain Auth-Application-Id (as examples/s6a_client does): every AVP the client
+		// was told to advertise is in the CER, the vendor-specific group included
+		l.Want.Auth = append(l.Want.Auth, abs.B4(16777251))
+		cli.AuthApplicationID = append(cli.AuthApplicationID, diam.NewAVP(avp.AuthApplicationID, avp.Mbit, 0, datatype.Unsigned32(16777251)))
 	case "acct":
 		l.Want.Acct = append(l.Want.Acct, abs.B4(12345))
 		cli.AcctApplicationID = append(cli.AcctApplicationID, diam.NewAVP(avp.AcctApplicationID, avp.Mbit, 0, datatype.Unsigned32(12345)))
